@@ -496,7 +496,10 @@ def replay_path(uni: Universe, scn, steps, read_mode, tally, probes=None, probe_
         if o != "ok":
             return [Mismatch("C10", "scenario_prefix", f"scenario prefix event {ev} raised {exc}")], -1
     soft_acc, soft_at = [], -1
+    prev_spec = None
     for i, (ev, out, acts, st, view) in enumerate(steps):
+        if i > 0:
+            prev_spec = steps[i - 1][3]
         before = drv.snapshot()
         try:
             nv0 = drv.account()[0]
@@ -534,6 +537,11 @@ def replay_path(uni: Universe, scn, steps, read_mode, tally, probes=None, probe_
         if ev["op"] == "update" and o == "reject":
             mm.append(Mismatch("C12", "update_raises", f"update() raised {exc}"))
         elif o != out:
+            if at_limit(drv.u, prev_spec, ev):
+                # the request sits on the limit itself (within 1e-20 relative): the code's 35-digit Decimal division may fall on either
+                # side (DESIGN 2.9, band at a limit); either outcome is allowed and the path ends here (the states differ from now on)
+                tally("info/outcome_in_band_at_limit")
+                return soft_acc, i
             mm.append(Mismatch(OUTCOME_OWNER[ev["op"]], "outcome", f"{ev['op']} {fmt_ev(ev)}: code {o} ({exc}), spec {out}"))
         if mm and ev["op"] != "update":
             # the step already deviates (another clause): the positions are still compared with the spec's state after the step, so
@@ -594,6 +602,38 @@ def replay_path(uni: Universe, scn, steps, read_mode, tally, probes=None, probe_
             tally("info/liquidation_differs_from_policy")
             return soft_acc, i
     return soft_acc, (len(steps) - 1 if soft_acc else len(steps))
+
+
+def at_limit(uni, st, ev, rel=Fraction(1, 10 ** 20)) -> bool:
+    """Is the request of ev EXACTLY on its limit in the spec state st (before the event)?  borrow: debt + new = collateral x weighted
+    max LTV; withdraw / collateral flag off: health factor afterwards = 1.  None / unknown state: no."""
+    if st is None or ev["op"] not in ("borrow", "withdraw", "setcoll") or ev.get("a") == ALL:
+        return False
+    row = uni.rows[st["row"] - 1]
+    px, li, bi = row["px"], row["li"], row["bi"]
+    sup = {t: Q(st["sb"][t]) * li[t] * px[t] for t in uni.tokens}
+    coll = {t: (sup[t] if st["sc"][t] else Fraction(0)) for t in uni.tokens}
+    bor = sum((Q(st["bb"][t]) * bi[t] * px[t] for t in uni.tokens), Fraction(0))
+    tot_coll = sum(coll.values(), Fraction(0))
+    if tot_coll == 0:
+        return False
+    t = ev["t"]
+    if ev["op"] == "borrow":
+        cap = sum((coll[x] * uni.risk[x]["ltv"] for x in uni.tokens), Fraction(0))
+        need = bor + Q(ev["a"]) * px[t]
+        return abs(need - cap) <= rel * cap
+    if bor == 0:
+        return False
+    wl = sum((coll[x] * uni.risk[x]["lt"] for x in uni.tokens), Fraction(0))
+    if ev["op"] == "withdraw":
+        if not st["sc"][t]:
+            return False
+        wl2 = wl - Q(ev["a"]) * px[t] * uni.risk[t]["lt"]
+    else:
+        if ev.get("c") or not st["sc"][t]:
+            return False
+        wl2 = wl - coll[t] * uni.risk[t]["lt"]
+    return abs(wl2 - bor) <= rel * bor
 
 
 def fmt_ev(ev):
